@@ -227,12 +227,22 @@ def run_model(lines, chunk=None):
 NAMES = ['A', 'B', 'C', 'D', 'E', 'F', 'G', 'H', 'I', 'J', 'K', 'L', 'M', 'N', 'O', 'P']
 
 
+# label mode of the implementation call in progress (set by Ctx.differential for a share of the cases): 'std' = 'A', 'B', ... ;
+# 'ints0' = the integers 0, 1, ... - candidates numbered from 0, the first of them a falsy object (a test like `if winner:` where
+# `if winner is not None:` is meant shows only there).  The wire values (1-based numbers) do not change.
+LABEL_MODE = ['std']
+
+
 def cname(k):
     """candidate number (1-based) -> default Python object"""
+    if LABEL_MODE[0] == 'ints0':
+        return k - 1
     return NAMES[k - 1] if k <= len(NAMES) else 'X%d' % k
 
 
 def cnum(name):
+    if isinstance(name, int) and not isinstance(name, bool) and LABEL_MODE[0] == 'ints0':
+        return name + 1
     if name in NAMES:
         return NAMES.index(name) + 1
     return int(name[1:])
